@@ -437,6 +437,34 @@ func Read(col any, rt *refproto.Type, i int) (any, error) {
 	return x, nil
 }
 
+// TouchRows calls the column's own row accessor for every index below rows,
+// whatever the values are: used where no model of the values exists (targets
+// built by inference from a type the harness did not choose). A panic is the
+// caller's finding.
+func TouchRows(col any, rows int) {
+	switch c := col.(type) {
+	case *proto.ColAuto:
+		TouchRows(c.Data, rows)
+		return
+	case proto.ColTuple:
+		for _, e := range c {
+			TouchRows(e, rows)
+		}
+		return
+	}
+	rv := reflect.ValueOf(col)
+	for _, name := range []string{"Row", "RowKV"} {
+		m := rv.MethodByName(name)
+		if !m.IsValid() || m.Type().NumIn() != 1 || m.Type().In(0).Kind() != reflect.Int {
+			continue
+		}
+		for i := 0; i < rows; i++ {
+			m.Call([]reflect.Value{reflect.ValueOf(i)})
+		}
+		return
+	}
+}
+
 // ReadAll reads every row.
 func ReadAll(col any, rt *refproto.Type, rows int) ([]any, error) {
 	out := make([]any, rows)
